@@ -46,7 +46,7 @@ func (w *World) crashRestart(r *core.Run, chk *checkerSet, L *Ledger) *core.Viol
 	preCrash := w.TakeSnap(rep)
 	blk := *w.curBlock
 	// the process dies: drop the app object, keep the disk
-	rep.App = newApp(rep.DB)
+	rep.App = newAppInv(rep.DB, rep.Inv)
 	rep.InBlock = false
 	if got := rep.App.LastBlockHeight(); got != blk.Height-1 {
 		return r.Flag("crash/last-height", "after restart LastBlockHeight=%d want %d", got, blk.Height-1)
